@@ -91,8 +91,13 @@ class Machine(object):
                 kw["reuse_gradient"] = op["reuse"]
             if op.get("name") is not None:
                 kw["name"] = op["name"]
-            f = self.pep.declare_function(cls, **params, **kw)
+            if op.get("direct"):
+                f = cls(**params, **kw)      # the documented other way: the class constructor itself (registers the function too)
+            else:
+                f = self.pep.declare_function(cls, **params, **kw)
             regs[op["out"]] = f
+            self.user_function_names = getattr(self, "user_function_names", {})
+            self.user_function_names[id(f)] = op.get("name")
             if op["cls"] == "NonexpansiveOperator" and op.get("v"):
                 f.v = regs[op["v"]]
         elif k == "fcomb":
@@ -324,6 +329,9 @@ class Builder(object):
             p = params if params is not None else CLASSES[cls][2](rng)
             op["params"] = json_params(p)
         op.update(kw)
+        if rng.random() < 0.1:
+            op["direct"] = True
+            self.feat("function_instantiated_directly")
         self.emit(op)
         self.funcs.append((n, cls, CLASSES[cls][0], op["params"]))
         self.meta["classes"].append(cls)
